@@ -217,6 +217,13 @@ def plan(tier, seed):
         nh = G.count_hooks_upper(G.flatten(prog))
         return [(with_o2(prog), [G.cfg(capdeco=True), G.cfg(capdeco=True, capture=(True, True, False))], [[0, 0]] + [[k, 0] for k in range(1, nh + 1)])]
 
+    def stop_fault_programs():
+        """--stop with every single hook invocation as fault: after the first failure (of whatever hook) nothing else starts"""
+        prog = {"features": [G.feature([G.scenario(["pass"])], ["t1"]), G.feature([G.rule([G.scenario(["pass"])], ["t2"]), ]),
+                             G.feature([G.scenario(["pass"])])], "family": "stopfault"}
+        nh = G.count_hooks_upper(G.flatten(prog))
+        return [(with_o2(prog), [G.cfg(stop=True)], [[0, 0]] + [[k, 0] for k in range(1, nh + 1)])]
+
     def with_literal(p, prob):
         """some programs: outline steps whose text is the same in all rows are written without placeholder"""
         if rnd.random() < prob:
@@ -328,6 +335,7 @@ def plan(tier, seed):
         out.extend(truth_table_programs())
         out.extend(exception_class_programs())
         out.extend(decorated_hook_programs())
+        out.extend(stop_fault_programs())
     else:
         # ~85k runs: (a) EVERY hook invocation as injection point on the exhaustive family scen(2) under the default
         # configuration (also with autoretry: positions of the second attempt); (b) scen(3) under 4 configurations with
@@ -360,6 +368,7 @@ def plan(tier, seed):
         out.extend(truth_table_programs())
         out.extend(exception_class_programs())
         out.extend(decorated_hook_programs())
+        out.extend(stop_fault_programs())
         for p in G.family_big(rnd, 300):
             out.append((with_o2(p), [rcfg(), rcfg()], rfaults(p, 6)))
     return out
@@ -369,7 +378,7 @@ def shared(chk, part="core"):
     """Run (or load) the shared stage for this tree / tier / seed.  Returns a dict:
        n_runs, tlc: [{module,cfg,distinct,generated,wall,coverage}], verdicts: {clause: [ {key, ...} ]},
        divergences, samples, design_violations"""
-    key = tree_key({"tier": chk.tier, "seed": chk.seed, "part": part, "v": 35})
+    key = tree_key({"tier": chk.tier, "seed": chk.seed, "part": part, "v": 36})
     os.makedirs(CACHE, exist_ok=True)
     # one entry per (part, tier, repository location): runs against a mutated copy must not evict /repo's entry
     prefix = "%s-%s-%s-" % (part, chk.tier, hashlib.sha256(REPO.encode()).hexdigest()[:8])
